@@ -1056,6 +1056,11 @@ class CallMixin:
         self._specrec = getattr(self, "_specrec", {})
         if name in self._specrec:
             return self._specrec[name]
+        # z3 recursive definitions are global to the process (a worker verifies many functions, each with its own engine):
+        # define each spec function once per process
+        if name in _SPECREC_PROCESS and self.reg.spec_rec[name][2] is not None:
+            self._specrec[name] = _SPECREC_PROCESS[name]
+            return self._specrec[name]
         params, returns, body = self.reg.spec_rec[name]
         sorts = []
         for (pn, pt) in params:
@@ -1093,6 +1098,7 @@ class CallMixin:
         base.pc = []
         bodyv = self.eval_spec_term(parse_expr(body), base, fr, returns)
         z3.RecAddDefinition(f, vs, bodyv)
+        _SPECREC_PROCESS[name] = f
         return f
 
     def eval_spec_term(self, node, st, fr, ty):
@@ -1137,6 +1143,9 @@ class CallMixin:
             s.frames.pop()
             return k(v, s)
         return self.trim_frames(self.ev(parse_expr(expr), st, done), nf)
+
+
+_SPECREC_PROCESS = {}
 
 
 class AbstractInfo:
